@@ -378,7 +378,14 @@ func (set *Set) add(hosts ...*Host) {
 		}
 		set.all[host.Addr] = host
 	}
-	set.addToHealthy(hosts...)
+	// only the hosts marked as healthy are usable.
+	healthyHosts := make([]*Host, 0, len(hosts))
+	for _, host := range hosts {
+		if host.IsHealthy() {
+			healthyHosts = append(healthyHosts, host)
+		}
+	}
+	set.addToHealthy(healthyHosts...)
 }
 
 // Remove removes host from the set.
